@@ -4,7 +4,7 @@
 (* logs from the exported catalogue, so the specification is the single source).                                      *)
 EXTENDS ProxyLifecycle, Json
 
-AllCerts(S) == S
+Unbounded == -1     \* cfg files take no negative numbers: MaxPublish <- Unbounded
 
 (* ---- small catalogue: two good lists that differ in a log, one refused / unparsable list ---- *)
 SLogs == {"g1", "n1", "x1"}
